@@ -1,7 +1,8 @@
 //! C06: replicas converge.  Three real ReplicatedShardActors; client commands at any node,
-//! deltas delivered in any order / duplicated / dropped, then everything redelivered
-//! (quiescence); at the end all nodes must hold the same replication state, answer reads
-//! alike, and serve what their replication state says.
+//! deltas delivered in any order / duplicated / dropped, nodes crashing and restarting from the
+//! deltas they emitted themselves (WAL replay), then everything redelivered (quiescence); at the
+//! end all nodes must hold the same replication state, answer reads alike, and serve what their
+//! replication state says.
 use rand::seq::SliceRandom;
 use rand::Rng as _;
 use redis_sim::production::{ReplicatedShardActor, ReplicatedShardHandle, ReplicatedShardedState};
@@ -17,7 +18,7 @@ use vharness::util::*;
 
 const HEADER: &str = "From RV Require Import Corr.C06.\nLocal Open Scope string_scope.\nLocal Open Scope N_scope.\nLocal Open Scope list_scope.";
 const VALS: [&[u8]; 5] = [b"a", b"b", b"", b"\x00\xff", b"10"];
-const FIELDS: [&str; 3] = ["f1", "f2", "f3"];
+const FIELDS: [&str; 6] = ["f1", "f2", "f3", "f4", "f5", "f6"];
 
 #[derive(Clone, Debug)]
 enum Cmd {
@@ -54,6 +55,7 @@ impl Cmd {
 enum Ev {
     Client(usize, Cmd),
     Deliver(usize, usize), // (target node, index into the log)
+    Restart(usize),        // the node crashes; a fresh one with its id replays the deltas it emitted
 }
 
 /// A cluster member: either one shard actor, or a whole production node (16 shard actors behind
@@ -103,7 +105,17 @@ impl NodeH {
     }
 }
 
-fn gen_cmd(rng: &mut Rng, mixed: bool, with_opts: bool, with_ex: bool, only_kind: Option<bool>) -> Cmd {
+fn new_member(r: u64, node_level: bool) -> NodeH {
+    if node_level {
+        let mut cfg = ReplicationConfig::default();
+        cfg.replica_id = r;
+        NodeH::Node(ReplicatedShardedState::new(cfg))
+    } else {
+        NodeH::Actor(ReplicatedShardActor::spawn(ReplicaId(r), ConsistencyLevel::Eventual, 0))
+    }
+}
+
+fn gen_cmd(rng: &mut Rng, mixed: bool, with_opts: bool, with_ex: bool, only_kind: Option<bool>, wide: bool) -> Cmd {
     // only_kind = Some(true): string key only, Some(false): hash key only (node-level histories use
     // one key: a production node has 16 shards with independent clocks, the model one shard)
     let kind_roll = match only_kind { Some(true) => 0, Some(false) => 9, None => rng.gen_range(0..10) };
@@ -123,10 +135,20 @@ fn gen_cmd(rng: &mut Rng, mixed: bool, with_opts: bool, with_ex: bool, only_kind
     } else {
         match rng.gen_range(0..10) {
             0..=5 => {
-                let n = rng.gen_range(1..3);
-                Cmd::HSet(key, (0..n).map(|_| (FIELDS[rng.gen_range(0..FIELDS.len())].to_string(), VALS[rng.gen_range(0..VALS.len())].to_vec())).collect())
+                // wide histories: HSETs of 3-6 pairs in field order, overwrites of single (mostly late) fields
+                if wide && rng.gen_bool(0.5) {
+                    let n = rng.gen_range(3..=FIELDS.len());
+                    Cmd::HSet(key, (0..n).map(|j| (FIELDS[j].to_string(), VALS[rng.gen_range(0..VALS.len())].to_vec())).collect())
+                } else if wide {
+                    let j = FIELDS.len() - 1 - rng.gen_range(0..3).min(rng.gen_range(0..3));
+                    Cmd::HSet(key, vec![(FIELDS[j].to_string(), VALS[rng.gen_range(0..VALS.len())].to_vec())])
+                } else {
+                    let n = rng.gen_range(1..3);
+                    let nf = 3; // the narrow histories keep to three fields (collisions matter)
+                    Cmd::HSet(key, (0..n).map(|_| (FIELDS[rng.gen_range(0..nf)].to_string(), VALS[rng.gen_range(0..VALS.len())].to_vec())).collect())
+                }
             }
-            6..=8 => Cmd::HDel(key, vec![FIELDS[rng.gen_range(0..FIELDS.len())].to_string()]),
+            6..=8 => Cmd::HDel(key, vec![FIELDS[rng.gen_range(0..if wide { FIELDS.len() } else { 3 })].to_string()]),
             _ => Cmd::Del(key),
         }
     }
@@ -174,7 +196,7 @@ fn main() {
     let args = &Args::parse(&a[1..]);
     std::panic::set_hook(Box::new(|_| {}));
     let mut out = Out::new(&args.out, "C06", args.shards, HEADER);
-    out.nontrivial_rule = "cluster histories on 3 real members (single ReplicatedShardActors, or in about a third of the kind-stable histories whole production nodes = ReplicatedShardedState with 16 shard actors, deltas collected with collect_pending_deltas and delivered in batches through apply_remote_deltas): 4-14 client commands (SET [NX|XX] [EX], DEL, APPEND, HSET, HDEL) at random nodes on keys s (strings), h (hashes) and, in mixed histories, m (both kinds), interleaved with deliveries of already emitted deltas in random order with duplicates and drops, followed by redelivery of every delta to every node in random order; Coq cases for histories without EX; non-trivial = at least two nodes wrote the same key; distinct by event text".into();
+    out.nontrivial_rule = "cluster histories on 3 real members (single ReplicatedShardActors, or in about a third of the kind-stable histories whole production nodes = ReplicatedShardedState with 16 shard actors, deltas collected with collect_pending_deltas and delivered in batches through apply_remote_deltas): 4-14 client commands (SET [NX|XX] [EX], DEL, APPEND, HSET of 1-6 pairs, HDEL) at random nodes on keys s (strings), h (hashes) and, in mixed histories, m (both kinds), interleaved with deliveries of already emitted deltas in random order with duplicates and drops and, in a third of the histories, crashes of nodes (a fresh member with the same replica id replays the deltas the node emitted itself), followed by redelivery of every delta to every node in random order; Coq cases for histories without EX; non-trivial = at least two nodes wrote the same key; distinct by event text".into();
     let rt = tokio::runtime::Builder::new_current_thread().enable_all().build().unwrap();
     let range: Vec<u64> = match args.only { Some(i) => vec![i], None => (0..args.n).collect() };
     for i in range {
@@ -186,6 +208,10 @@ fn main() {
         let node_level = !mixed && rng.gen_bool(0.35);
         let only_kind = if node_level { Some(rng.gen_bool(0.4)) } else { None };
         let ncmds = rng.gen_range(4..15);
+        // separate streams, so that the histories of earlier runs keep their shape
+        let mut rng2 = case_rng(args.seed ^ 0x5eed_c06, i);
+        let wide = rng2.gen_bool(0.3);
+        let restarts = rng2.gen_bool(0.35);
         let mut evs: Vec<Ev> = Vec::new();
         let mut log: Vec<(usize, String, ReplicatedValue)> = Vec::new();
         let mut died = false;
@@ -194,17 +220,23 @@ fn main() {
         let mut cmds: Vec<(usize, Cmd, String)> = Vec::new();
         let keys_used: BTreeSet<String>;
         rt.block_on(async {
-            let hs: Vec<NodeH> = (1..=3u64).map(|r| if node_level {
-                    let mut cfg = ReplicationConfig::default();
-                    cfg.replica_id = r;
-                    NodeH::Node(ReplicatedShardedState::new(cfg))
-                } else {
-                    NodeH::Actor(ReplicatedShardActor::spawn(ReplicaId(r), ConsistencyLevel::Eventual, 0))
-                }).collect();
+            let mut hs: Vec<NodeH> = (1..=3u64).map(|r| new_member(r, node_level)).collect();
             let mk = |log: &Vec<(usize, String, ReplicatedValue)>, li: usize| ReplicationDelta::new(log[li].1.clone(), log[li].2.clone(), ReplicaId(log[li].0 as u64 + 1));
             let mut issued = 0;
             while issued < ncmds {
-                if !log.is_empty() && rng.gen_bool(0.4) {
+                if restarts && !log.is_empty() && rng2.gen_bool(0.12) {
+                    // crash of node n: everything in memory is lost; the new incarnation replays the
+                    // deltas the node emitted itself, in order (WAL replay through apply_remote_delta(s))
+                    let n = rng2.gen_range(0..3usize);
+                    hs[n].stop().await;
+                    hs[n] = new_member(n as u64 + 1, node_level);
+                    let own: Vec<ReplicationDelta> = (0..log.len()).filter(|li| log[*li].0 == n).map(|li| mk(&log, li)).collect();
+                    match &hs[n] {
+                        NodeH::Node(s) => { s.apply_recovered_state(None, own); let _ = s.snapshot_state().await; }
+                        a => { a.deliver(own).await; }
+                    }
+                    evs.push(Ev::Restart(n));
+                } else if !log.is_empty() && rng.gen_bool(0.4) {
                     // a batch of 1-3 already emitted deltas (possibly several for one key) to one node
                     let t = rng.gen_range(0..3usize);
                     let bn = if node_level { rng.gen_range(1..4) } else { 1 };
@@ -216,7 +248,7 @@ fn main() {
                     if !batch.is_empty() { hs[t].deliver(batch).await; }
                 } else {
                     let n = rng.gen_range(0..3usize);
-                    let c = gen_cmd(&mut rng, mixed, with_opts, with_ex, only_kind);
+                    let c = gen_cmd(&mut rng, mixed, with_opts, with_ex, only_kind, wide);
                     let (reply, ds) = hs[n].exec(c.to_command()).await;
                     cmds.push((n, c.clone(), format!("{:?}", reply)));
                     evs.push(Ev::Client(n, c.clone()));
@@ -269,10 +301,14 @@ fn main() {
         let ev_terms: Vec<String> = evs.iter().map(|e| match e {
             Ev::Client(n, c) => format!("(CC {} {})", n, c.term()),
             Ev::Deliver(t, li) => format!("(CD {} {} {})", t, chex(log[*li].1.as_bytes()), rv_term(&log[*li].2, false)),
+            Ev::Restart(n) => format!("(CR {})", n),
         }).collect();
-        let show = json!({"commands": cmds.iter().map(|(n, c, r)| format!("node{} {:?} -> {}", n + 1, c, r)).collect::<Vec<_>>(), "deliveries": evs.iter().filter(|e| matches!(e, Ev::Deliver(..))).count()});
+        let show = json!({"commands": cmds.iter().map(|(n, c, r)| format!("node{} {:?} -> {}", n + 1, c, r)).collect::<Vec<_>>(), "deliveries": evs.iter().filter(|e| matches!(e, Ev::Deliver(..))).count(),
+            "restarts": evs.iter().filter_map(|e| if let Ev::Restart(n) = e { Some(format!("node{}", n + 1)) } else { None }).collect::<Vec<_>>()});
         for (_, c, _) in &cmds { out.count(match c { Cmd::Set(_, _, true, _, _) => "cmd:SET NX", Cmd::Set(_, _, _, true, _) => "cmd:SET XX", Cmd::Set(_, _, _, _, Some(_)) => "cmd:SET EX", Cmd::Set(..) => "cmd:SET", Cmd::Del(_) => "cmd:DEL", Cmd::Append(..) => "cmd:APPEND", Cmd::HSet(..) => "cmd:HSET", Cmd::HDel(..) => "cmd:HDEL" }); }
         out.count(if mixed { "history:mixed-kinds" } else { "history:kind-stable" });
+        if wide { out.count("history:wide-hsets"); }
+        for e in &evs { if matches!(e, Ev::Restart(_)) { out.count("event:restart"); } }
         out.count(if node_level { "member:ReplicatedShardedState(16 shards, batched deliveries)" } else { "member:ReplicatedShardActor" });
         if died {
             // a remote hash delta over a local string trips a debug assertion in the glue and kills the actor
